@@ -67,7 +67,11 @@ def gen_name(rng, cfgname):
         ch = rng.choice(["", "-", "+", "--"])
         if g and ch:
             g = ""
-        return cfg["grain"] + g + ch, None
+        g = rng.choice([g, g, "3", "12"]) if not ch else g
+        name = cfg["grain"] + g + ch
+        q = (1 if ch == "+" else -len(ch)) if ch else 0
+        return name, {"name": name, "counts": {cfg["grain"]: 1}, "charge": q, "surface": False, "gasname": name, "mass": 0,
+                      "is_atom": q == 0}
     n = rng.choice([1, 1, 2, 2, 3, 3, 4, 5])
     toks = []
     for _ in range(n):
@@ -257,6 +261,7 @@ NETS = {
     "ice": (["CO", "#CO", "H2O", "#H2O", "#CH4", "CH4", "H", "#H", "GRAIN0", "GRAIN-", "e-"], "default"),
     "electron-twice": (["e-", "E", "H+", "H", "He+", "He"], "default"),
     "upper": (["HE", "HE+", "MG", "MG+", "SI", "SIO", "H", "E-", "CL", "HCL", "#SIO"], "upper"),
+    "upper-ions": (["S", "S+", "S++", "SI", "SI+", "SIO", "H", "HE", "HE+", "E-", "C", "C+", "CL", "CL+", "MG", "MG+", "HS", "HS+", "CS"], "upper"),
     "excited": (["H2", "H2*", "H", "c-C3H2", "l-C3H", "C", "e-"], "default"),     # F9
     "grain-two-spellings": (["GRAIN", "GRAIN0", "GRAIN-", "H+", "H", "e-"], "default"),  # F10
 }
